@@ -27,8 +27,40 @@ def pick(beh, n, seed):
     return hot[: n // 2] + rest[seed % step::step][: n - min(len(hot), n // 2)]
 
 
-def cfg(fh=False, hostino=False, no_open=False, no_opendir=False, via="pt"):
-    return {"fh": fh, "hostino": hostino, "no_open": no_open, "no_opendir": no_opendir, "via": via}
+def cfg(fh=False, hostino=False, no_open=False, no_opendir=False, via="pt", seal=False):
+    return {"fh": fh, "hostino": hostino, "no_open": no_open, "no_opendir": no_opendir, "via": via, "seal": seal}
+
+
+O_RDWR, O_EXCL, O_TRUNC = os.O_RDWR, os.O_EXCL, os.O_TRUNC
+
+
+def refusal_script(c):
+    """every way an entry-returning request is refused on an existing name (a refused request must leave the counts
+    alone): create with O_TRUNC (EPERM with seal_size) on a known-and-forgotten and on a never-seen file, create of a
+    directory / symlink, O_EXCL, mknod / mkdir / symlink / link on existing names and into a file"""
+    ops = [{"op": "lookup", "p": 1, "name": "a"}, {"op": "forget", "p": 2, "n": 1},
+           {"op": "create", "p": 1, "name": "a", "flags": O_RDWR | O_TRUNC},
+           {"op": "create", "p": 1, "name": "b", "flags": O_RDWR | O_TRUNC},
+           {"op": "create", "p": 1, "name": "d0", "flags": O_RDWR},
+           {"op": "create", "p": 1, "name": "d1", "flags": O_RDWR | O_TRUNC},
+           {"op": "create", "p": 1, "name": "l", "flags": O_RDWR},
+           {"op": "create", "p": 1, "name": "a", "flags": O_RDWR | O_EXCL},
+           {"op": "mknod", "p": 1, "name": "a"}, {"op": "mkdir", "p": 1, "name": "b"}, {"op": "symlink", "p": 1, "name": "d0"},
+           {"op": "mkdir", "p": 1, "name": "l"},
+           {"op": "lookup", "p": 1, "name": "a"}, {"op": "link", "p2": 2, "p": 1, "name": "b"}, {"op": "link", "p2": 2, "p": 2, "name": "z"},
+           {"op": "link", "p2": 1, "p": 1, "name": "rootlink"}, {"op": "mknod", "p": 2, "name": "in-a-file"},
+           {"op": "quiesce"}]
+    return {"cfg": c, "tree": TREE, "ops": ops}
+
+
+def reuse_script(c, n=4):
+    """a referenced file loses its last name and new files are made right away (ext4 hands the freed host inode number to
+    the next file): the new files must get numbers of their own (or, with use_host_ino, inherit the vanished file's)"""
+    ops = [{"op": "lookup", "p": 1, "name": "a"}, {"op": "lookup", "p": 1, "name": "a"}, {"op": "unlink", "p": 1, "name": "a"}]
+    ops += [{"op": "mknod", "p": 1, "name": "n%d" % i} for i in range(n)]
+    ops += [{"op": "lookup", "p": 1, "name": "n0"}, {"op": "forget", "p": 2, "n": 1}, {"op": "lookup", "p": 1, "name": "n1"},
+            {"op": "unlink", "p": 1, "name": "b"}, {"op": "create", "p": 1, "name": "a", "flags": O_RDWR}, {"op": "quiesce"}]
+    return {"cfg": c, "tree": TREE, "ops": ops}
 
 
 # ------------------------------------------------------------------------------------------------
@@ -119,7 +151,7 @@ _RE_REPLAY = re.compile(r'<<\s*"REPLAY",\s*"((?:[^"\\]|\\.)*)"\s*>>')
 # makes TLC ~10x slower on these specs because every sub-expression of the A-level operators is counted)
 MUST_TAKE = {
     "refs": {"lookup", "mknod", "create", "link", "unlink", "rename", "forget", "batch_forget", "readdir"},
-    "res": {"lookup", "create", "open", "opendir", "release", "releasedir", "read", "readdir", "forget", "destroy", "init"},
+    "res": {"lookup", "create", "open", "opendir", "release", "releasedir", "read", "write", "readdir", "forget", "destroy", "init"},
     "dir": set(),
 }
 
@@ -195,11 +227,13 @@ def c08_scens(ctx):
     scens = []
     hist = 6 if ctx.quick else 30
     steps = 120 if ctx.quick else 400
-    for fh in (False, True):
-        for hostino in (False, True):
-            for k in range(hist):
-                scens.append({"cfg": cfg(fh=fh, hostino=hostino), "tree": TREE,
-                              "random": {"kind": "refs", "seed": ctx.seed * 1000 + k * 4 + fh * 2 + hostino, "steps": steps}})
+    cfgs = [cfg(fh=fh, hostino=hostino) for fh in (False, True) for hostino in (False, True)]
+    cfgs += [cfg(fh=fh, seal=True) for fh in (False, True)]
+    for i, c in enumerate(cfgs):
+        for k in range(hist if not c["seal"] else max(2, hist // 2)):
+            scens.append({"cfg": c, "tree": TREE, "random": {"kind": "refs", "seed": ctx.seed * 1000 + k * 8 + i, "steps": steps}})
+        scens.append(refusal_script(c))
+        scens.append(reuse_script(c))
     return scens
 
 
@@ -209,7 +243,7 @@ def run_c08(ctx):
     beh, mcinfo = mc(ctx, "refs")
     scens = []
     for b in pick(beh, 200 if ctx.quick else 2000, ctx.seed):
-        scens.append({"cfg": cfg(fh=b["fh"], hostino=b["hostino"], no_opendir=b["no_opendir"]), "tree": [["a", "p" if b["special"] else "f"]],
+        scens.append({"cfg": cfg(fh=b["fh"], hostino=b["hostino"], no_opendir=b["no_opendir"], seal=b["seal"]), "tree": [["a", "p" if b["special"] else "f"]],
                       "ops": b["ops"] + [{"op": "quiesce"}]})
     n_exp = len(scens)
     scens += c08_scens(ctx)
@@ -296,9 +330,25 @@ def inj_scripts(c, nmax):
     return out
 
 
+def refused_write_script(c):
+    """a request on a handle is refused (seal_size: extending write -> EPERM; elsewhere: a write through a handle of another
+    inode) and the handle is used again, with opens of other files in between: it must keep denoting its file"""
+    hid = 0 if c["no_open"] else 1
+    ops = [{"op": "lookup", "p": 1, "name": "a"}, {"op": "lookup", "p": 1, "name": "b"}, {"op": "open", "p": 2, "flags": O_RDWR},
+           {"op": "write", "p": 2, "h": hid, "off": "100"}, {"op": "write", "p": 3, "h": hid, "off": "0"},
+           {"op": "open", "p": 3, "flags": O_RDWR},
+           {"op": "getattr_h", "p": 2, "h": hid}, {"op": "read", "p": 2, "h": hid, "size": 8}, {"op": "write", "p": 2, "h": hid, "off": "0"},
+           {"op": "write", "p": 2, "h": hid, "off": "5000"}, {"op": "lookup", "p": 1, "name": "d0"}, {"op": "opendir", "p": 4},
+           {"op": "getattr_h", "p": 2, "h": hid}, {"op": "release", "p": 2, "h": hid},
+           {"op": "getattr_h", "p": 3, "h": 0 if c["no_open"] else 2}, {"op": "read", "p": 3, "h": 0 if c["no_open"] else 2, "size": 8},
+           {"op": "quiesce"}]
+    return {"cfg": c, "tree": TREE, "ops": ops}
+
+
 def c15_scens(ctx):
     scens = []
     cfgs = [cfg(fh=fh, no_open=no, no_opendir=nod, hostino=(fh and no)) for fh in (False, True) for no in (False, True) for nod in (False, True)]
+    cfgs += [cfg(fh=fh, seal=True) for fh in (False, True)] + [cfg(no_open=True, no_opendir=True, seal=True)]
     hist = 3 if ctx.quick else 20
     steps = 100 if ctx.quick else 300
     n_inj = 0
@@ -306,9 +356,10 @@ def c15_scens(ctx):
         for k in range(hist):
             scens.append({"cfg": c, "tree": TREE, "random": {"kind": "res", "seed": ctx.seed * 1000 + k * 8 + cfgs.index(c), "steps": steps}})
         # quick: injection in the four configurations with no_open = no_opendir, n = 0..3; thorough: all eight, n = 0..8
-        inj = [] if (ctx.quick and c["no_open"] != c["no_opendir"]) else inj_scripts(c, 4 if ctx.quick else 9)
+        inj = [] if (c["seal"] or (ctx.quick and c["no_open"] != c["no_opendir"])) else inj_scripts(c, 4 if ctx.quick else 9)
         n_inj += len(inj)
         scens += inj
+        scens.append(refused_write_script(c))
     return scens, hist, n_inj, cfgs
 
 
@@ -318,7 +369,7 @@ def run_c15(ctx):
     beh, mcinfo = mc(ctx, "res")
     scens = []
     for b in pick(beh, 150 if ctx.quick else 2000, ctx.seed):
-        scens.append({"cfg": cfg(fh=b["fh"], no_open=b["no_open"], no_opendir=b["no_opendir"]), "tree": [["a", "p" if b["special"] else "f"]],
+        scens.append({"cfg": cfg(fh=b["fh"], no_open=b["no_open"], no_opendir=b["no_opendir"], seal=b["seal"]), "tree": [["a", "p" if b["special"] else "f"]],
                       "ops": b["ops"] + [{"op": "quiesce"}]})
     n_exp = len(scens)
     more, hist, n_inj, cfgs = c15_scens(ctx)
@@ -350,7 +401,7 @@ def run_c15(ctx):
         if r["e"] in ("Op", "Dir") and r.get("fail_at", -1) >= 0:
             op = r.get("op", "readdir")
             inj_stat.setdefault(op, set()).add(r["status"])
-    if len(quiet) < 8:
+    if len(quiet) < 11:
         raise C.ToolError("coverage gate: configurations without a quiescent census: %s" % sorted(quiet))
     if not any("EMFILE" in v for v in inj_stat.values()):
         raise C.ToolError("coverage gate: EMFILE injection never fired")
